@@ -124,6 +124,58 @@ var encSections = []corpusSection{
 		cfg.ForceStrLen = l
 		return &corpusCase{S: s, V: gen.NewValue(r, s, cfg), Class: "strlens", Tags: []string{fmt.Sprintf("strlen:%v=%d", k, l)}}
 	}},
+	{"twins", 240, func(r *gen.Rand, i int) *corpusCase {
+		// the same Go type under two annotations that differ only in one
+		// list<->set choice, 0-3 container levels down, used in one process
+		// (and one struct): descriptor caches keyed too coarsely confuse them
+		depth := i % 4
+		leaf := []schema.Kind{schema.I32, schema.I64, schema.String, schema.I8, schema.Double}[r.Intn(5)]
+		var build func(level, flipAt int, flip bool) *schema.Type
+		wrappers := make([]int, depth+1)
+		for k := range wrappers {
+			wrappers[k] = r.Intn(4)
+		}
+		build = func(level, flipAt int, flip bool) *schema.Type {
+			if level > depth {
+				return schema.Scalar(leaf)
+			}
+			inner := build(level+1, flipAt, flip)
+			w := wrappers[level]
+			if level == flipAt {
+				if flip {
+					return schema.SetOf(inner)
+				}
+				return schema.ListOf(inner)
+			}
+			switch w {
+			case 0:
+				return schema.ListOf(inner)
+			case 1:
+				return schema.SetOf(inner)
+			case 2:
+				return schema.MapOf(schema.Scalar(schema.I32), inner)
+			}
+			return schema.MapOf(schema.Scalar(schema.String), inner)
+		}
+		flipAt := depth - (i/4)%(depth+1)
+		a, b := build(0, flipAt, false), build(0, flipAt, true)
+		if r.Bool() {
+			a, b = b, a
+		}
+		s := &schema.Struct{UnknownIdx: -1, Fields: []*schema.Field{
+			{ID: uint16(1 + r.Intn(5)), Req: schema.Default, T: a},
+			{ID: uint16(10 + r.Intn(5)), Req: schema.Default, T: b},
+		}}
+		if r.Bool() {
+			s.GoOrder = []int{1, 0}
+		}
+		s.Build()
+		cfg := gen.DefaultValCfg()
+		cfg.Budget = 40
+		v := gen.NewValue(r, s, cfg)
+		// make sure the flipped level is reached by at least one element
+		return &corpusCase{S: s, V: v, Class: "twins", Tags: []string{fmt.Sprintf("twin:depth=%d:flip=%d", depth, flipAt)}}
+	}},
 	{"zoo", len(zoo.Valid) * 6, func(r *gen.Rand, i int) *corpusCase {
 		z := zoo.Valid[i/6]
 		s := gen.Zoo(z)
